@@ -1047,6 +1047,14 @@ class Machine:
             for off in set(ca) | set(cb):
                 va = ca[off] if off in ca else st.load(o, off)
                 vb = cb[off] if off in cb else st.load(o, off)
+                # a pointer cell that exists on one side only (object created on that path): the other
+                # side never reads it, keep the pointer
+                if va is None and isinstance(vb, Ptr):
+                    st.store(o, off, vb)
+                    continue
+                if vb is None and isinstance(va, Ptr):
+                    st.store(o, off, va)
+                    continue
                 if va is None and vb is not None:
                     va = self.init_like(o, off, vb)
                 if vb is None and va is not None:
